@@ -225,7 +225,7 @@ fn main() {
     run.assume("where the documented padding limit can be read with or without counting the decimal point (padding == limit exactly, N > 0) both renderings are accepted");
 
     // S1 small-scope product
-    let nmax: i64 = tier.pick(9_999, 99_999);
+    let nmax: i64 = tier.pick(9_999, 999_999);
     run.bound("S1_unscaled_max", nmax);
     run.bound("S1_scales", "-3..=8");
     run.bound("S1_N", "0..=9");
